@@ -53,6 +53,12 @@ def unit_rac(eng):
         (["q = 1\n.extern q\n", "Q = 2\n.extern ALL\n", ".byte q\n"], "fail", None),
         (["x = 7\n.extern all\n", ".byte x\n"], "ok", "07"),
         (["x = 7\n.extern all\n", "x = 6\n.byte x\n"], "ok", "06"),
+        # a local label in the LEADING scope of a later file (before its first ordinary label) is its own scope
+        (["entry: nop\n1: nop\nbr 1\n", "1: nop\nbr 1\ntail: nop\n"], "ok", "a000a000fe01a000fe01a000"),
+        (["entry: nop\nbr 1\n", "1: nop\ntail: nop\n"], "fail", None),
+        (["1: nop\nbr 1\n", "1: nop\nbr 1\n", "1: nop\nbr 1\n"], "ok", "a000fe01a000fe01a000fe01"),
+        (["a: nop\n", "br 1\nb: nop\n1: nop\n"], "fail", None),
+        (["a: 1: nop\n.repeat 2 { nop }\nbr 1\n"], "ok", "a000a000a000fc01"),
     ]
     jobs = [{"kind": "asm", "sources": s} for s, _, _ in cases]
     res = driver.native(jobs, driver.tree_root())
